@@ -246,6 +246,9 @@ func checkC11(c c11Case) error {
 		{"normal build, cwd = package dir", RunOpts{Pkg: c.Pkg}},
 		{"normal build, foreign cwd", RunOpts{Pkg: c.Pkg, Cwd: foreign}},
 		{"-trimpath build, cwd = package dir", RunOpts{Pkg: c.Pkg, Trim: true}},
+		{"-trimpath build with GOFLAGS=-trimpath in the environment (as under `GOFLAGS=-trimpath go test`)", RunOpts{Pkg: c.Pkg, Trim: true, GoFlags: "-trimpath"}},
+		{"normal build with unrelated GOFLAGS in the environment", RunOpts{Pkg: c.Pkg, GoFlags: "-mod=mod -count=1"}},
+		{"-trimpath build with unrelated GOFLAGS in the environment", RunOpts{Pkg: c.Pkg, Trim: true, GoFlags: "-mod=mod"}},
 	}
 	for _, v := range variants {
 		cleanShard()
